@@ -149,3 +149,14 @@ claim('C05', 'dominance rules over the pipeline functions (lower, effect check, 
       'with `?`, and the code generator runs only after a successful build.',
       'That the type checker detects each definite error at every nesting depth is not decided.',
       'DESIGN.md §3 C05')
+
+claim('C07', 'scan of every match over a syntax-tree enum in the checker / optimiser / code generator for todo!/unimplemented!/panic! arms on constructible variants; monotone count of unimplemented markers',
+      'Decides one necessary condition of "never panics on a well-formed program": no total traversal sends a variant the front end can construct into an unimplemented arm '
+      '(two reviewed exceptions with reasons), and no new unimplemented marker appears in the pipeline files.',
+      'Internal-error diagnostics (compiler_bug, type_not_found), unwrap()/enum_unwrap! sites and hangs depend on inference state, not on shape, and are not decided.',
+      'DESIGN.md §3 C07')
+claim('C09', 'SCC analysis of the resolved call graph of erg_parser for depth guards; who-may-call rule for the enlarged-stack thread',
+      'Decides the clause "deeper nesting is reported as an error instead of overflowing the stack": every recursive cycle through try_reduce_* needs a depth guard '
+      '(known finding: none exists), and the CLI runs the parser on the enlarged-stack thread.',
+      'Panic-freedom of the enum_unwrap!/unwrap sites on arbitrary token sequences and termination are not decided.',
+      'DESIGN.md §3 C09')
